@@ -1,9 +1,18 @@
 (* GoDirective.v — the span arithmetic of harper-comments/src/comment_parsers/go.rs (`Go::parse`) when
-   the comment starts with `go:`: the start of `actual` (the span left by without_initiators, in
-   SOURCE coordinates) is advanced by the position of the first newline of the source, and the result
-   is looked up in `actual_source` with try_get_content.  No proofs here. *)
+   the comment starts with `go:`, as it is NOW (017736b): `actual` (the span left by
+   without_initiators) and `terminator` (the position of the first newline) both index `source`; when
+   the directive line is the whole block nothing is linted, otherwise the block is cut at the newline
+   and looked up in `source` with get_content.  `go_directive_cut_old` is the code before 017736b
+   (finding F30).  No proofs here. *)
 Require Import Base.
 
-(*  actual.start += terminator;  actual.try_get_content(actual_source)  *)
-Definition go_directive_cut (actual : span) (terminator : nat) (actual_source : text) : res (option text) :=
+(*  if terminator >= actual.end { return Vec::new() }      -> Ok None
+    actual.start = terminator;  actual_source = actual.get_content(source)  *)
+Definition go_directive_cut (actual : span) (terminator : nat) (source : text) : res (option text) :=
+  if send actual <=? terminator then Ok None
+  else (do c <- get_content (mkspan terminator (send actual)) source; Ok (Some c)).
+
+(* before 017736b:  actual.start += terminator;  actual.try_get_content(actual_source)
+   — `actual_source` was already sliced, and start could pass end *)
+Definition go_directive_cut_old (actual : span) (terminator : nat) (actual_source : text) : res (option text) :=
   try_get_content (mkspan (sstart actual + terminator) (send actual)) actual_source.
